@@ -788,7 +788,8 @@ impl Ctx {
 /// Read memory that may not be mapped: let the kernel copy it into a pipe.
 fn safe_read(p: usize, n: usize) -> Option<Vec<u8>> {
     let mut fds = [0i32; 2];
-    if unsafe { libc::pipe2(fds.as_mut_ptr(), libc::O_CLOEXEC | libc::O_NONBLOCK) } != 0 {
+    // the harness's own pipe: not through the (trapped) `pipe2` symbol
+    if unsafe { simk::raw_syscall(libc::SYS_pipe2, fds.as_mut_ptr() as i64, (libc::O_CLOEXEC | libc::O_NONBLOCK) as i64, 0, 0, 0, 0) } != 0 {
         return None;
     }
     let w = unsafe { libc::write(fds[1], p as *const libc::c_void, n) };
@@ -1340,6 +1341,9 @@ struct Built {
     bufs: Vec<(usize, usize)>,
     posix: String,
     cleanup: Option<Box<dyn FnOnce()>>,
+    /// the decoded output a successful call must produce, where the harness
+    /// can tell (socket names with a length the kernel reports, full-size options)
+    expect_ok: Option<String>,
 }
 
 macro_rules! dispatch_n {
@@ -1818,6 +1822,10 @@ impl EncCase {
         let slot_k = if k == "f" { 0 } else { ALLOC };
         let okn = res >= 0;
         let n = res;
+        // a line whose completion carries a special error scripts the system call
+        // the fallback may issue (`sys=`): its out-parameters are parsed like those
+        // of a successful completion
+        let fbk = res < 0 && special_err(op, -(res as i128)) && kv.get("sys").is_some();
         let off_opt = |key: &str| -> Option<Option<u64>> {
             match kv.opt(key)? {
                 None => Some(None),
@@ -1828,7 +1836,7 @@ impl EncCase {
             if kind == "f" { reg_ok(self.rfd, self.tfd, v as i128) } else { (0..2147483647).contains(&v) }
         };
         let sq = self.sq();
-        let built = |obj: Box<dyn Erased>, bufs: Vec<(usize, usize)>, posix: String| Some(Built { fd_alias: None, obj, bufs, posix, cleanup: None });
+        let built = |obj: Box<dyn Erased>, bufs: Vec<(usize, usize)>, posix: String| Some(Built { fd_alias: None, obj, bufs, posix, cleanup: None, expect_ok: None });
         match op {
             "read" | "recv" => {
                 let cap = usize::try_from(kv.nat("cap")?).ok()?;
@@ -2292,7 +2300,8 @@ impl EncCase {
                 if at == "none" || (which != "local" && which != "peer") {
                     return None;
                 }
-                let expect = if okn { self.peer_expect(kv, at)? } else { None };
+                let expect = if okn || fbk { self.peer_expect(kv, at)? } else { None };
+                let expect_ok = expect.as_ref().map(|a| format!("ok addr={a}"));
                 let peer = which == "peer";
                 let obj = with_at!(at, A => {
                     let f = if peer { fd.peer_addr::<A>() } else { fd.local_addr::<A>() };
@@ -2304,7 +2313,9 @@ impl EncCase {
                         Err(e) => show_err(&e),
                     })
                 });
-                built(obj, vec![], format!("call {} {pfd} addr=state addrlen={ml}", if peer { "getpeername" } else { "getsockname" }))
+                let mut b = built(obj, vec![], format!("call {} {pfd} addr=state addrlen={ml}", if peer { "getpeername" } else { "getsockname" }))?;
+                b.expect_ok = expect_ok;
+                Some(b)
             }
             "recvfrom" => {
                 let cap = usize::try_from(kv.nat("cap")?).ok()?;
@@ -2426,7 +2437,7 @@ impl EncCase {
                 if !g {
                     return None;
                 }
-                let ov = if okn {
+                let ov = if okn || fbk {
                     let v = unhex(kv.get("ov")?)?;
                     if v.len() != opt_size(ty) as usize {
                         return None;
@@ -2435,8 +2446,13 @@ impl EncCase {
                 } else {
                     None
                 };
-                let obj = getsockopt_obj(fd, name, ov, n, fails)?;
-                built(obj, vec![], format!("call getsockopt {pfd} level={lvl} optname={optname} optval=state optlen={}", opt_size(ty)))
+                // the length the call reports: the completion's result, or `*optlen`
+                // after the system call of the fallback
+                let n = if fbk { i64::from(kv.u32("slen")?) } else { n };
+                let (obj, expect_ok) = getsockopt_obj(fd, name, ov, n, fails)?;
+                let mut b = built(obj, vec![], format!("call getsockopt {pfd} level={lvl} optname={optname} optval=state optlen={}", opt_size(ty)))?;
+                b.expect_ok = expect_ok;
+                Some(b)
             }
             "setsockopt" => {
                 let name = kv.get("opt")?;
@@ -2559,9 +2575,11 @@ impl EncCase {
                     _ => return None,
                 };
                 let mut want: Option<(i64, i64)> = None;
-                if okn {
+                // pipe2(2) of the fallback returns regular descriptors whatever was asked
+                let got_kind = if fbk { "f" } else { kind };
+                if okn || fbk {
                     let v = nat_list(kv.get("pfds")?)?;
-                    if v.len() != 2 || v[0] == v[1] || !new_fd_ok(kind, v[0] as i64) || !new_fd_ok(kind, v[1] as i64) {
+                    if v.len() != 2 || v[0] == v[1] || !new_fd_ok(got_kind, v[0] as i64) || !new_fd_ok(got_kind, v[1] as i64) {
                         return None;
                     }
                     want = Some((v[0] as i64, v[1] as i64));
@@ -2569,7 +2587,7 @@ impl EncCase {
                 let fl = pfl.unwrap_or(0) as u32 | if kind == "f" { O_CLOEXEC } else { 0 };
                 let posix = format!("call pipe2 fds=state flags={fl} slot={}", if kind == "d" { ALLOC } else { 0 });
                 let other = if kind == "f" { a10::fd::Kind::Direct } else { a10::fd::Kind::File };
-                let kind = kind.to_string();
+                let kind = got_kind.to_string();
                 let late_direct = pfl.is_none();
                 built(fut_late(f, move |f| { let f = f.kind(other); if late_direct { f.flags(a10::pipe::PipeFlag::DIRECT) } else { f } }, move |r: std::io::Result<[AsyncFd; 2]>| match r {
                     Ok([a, b]) => {
@@ -2764,7 +2782,7 @@ fn parse_ssi(s: &str) -> Option<(u32, u32, u32)> {
     Some((u(0)?, u(1)?, u(2)?))
 }
 
-fn getsockopt_obj(fd: &'static AsyncFd, name: &str, ov: Option<Vec<u8>>, n: i64, fails: Fails) -> Option<Box<dyn Erased>> {
+fn getsockopt_obj(fd: &'static AsyncFd, name: &str, ov: Option<Vec<u8>>, n: i64, fails: Fails) -> Option<(Box<dyn Erased>, Option<String>)> {
     use a10::net::option as o;
     let word = ov.as_ref().map(|v| u32::from_ne_bytes(v[0..4].try_into().unwrap()));
     let full = n == ov.as_ref().map_or(-1, |v| v.len() as i64);
@@ -2772,7 +2790,8 @@ fn getsockopt_obj(fd: &'static AsyncFd, name: &str, ov: Option<Vec<u8>>, n: i64,
         ($t:ty, $show:expr, $expect:expr) => {{
             let show = $show;
             let expect: Option<String> = if full { $expect } else { None };
-            fut(fd.socket_option::<$t>(), move |r| match r {
+            let expect_ok = expect.as_ref().map(|e| format!("ok val={e}"));
+            (fut(fd.socket_option::<$t>(), move |r| match r {
                 Ok(v) => {
                     let s: String = show(v);
                     if let Some(e) = &expect {
@@ -2781,7 +2800,7 @@ fn getsockopt_obj(fd: &'static AsyncFd, name: &str, ov: Option<Vec<u8>>, n: i64,
                     format!("ok val={s}")
                 }
                 Err(e) => show_err(&e),
-            })
+            }), expect_ok)
         }};
     }
     let b01 = word.and_then(|w| if w <= 1 { Some((w == 1).to_string()) } else { None });
@@ -2840,6 +2859,37 @@ fn setsockopt_obj(fd: &'static AsyncFd, name: &str, v: Option<u32>) -> Option<Bo
 // ---------------------------------------------------------------------------
 // Running one op line
 
+/// What the kernel writes for `peer=`/`klen=` into an address buffer of type
+/// `at=`: the first `klen` bytes of the address over 0xAA junk, and the length.
+fn peer_storage(kv: &Kv) -> (Vec<u8>, u32) {
+    let at = kv.get("at").unwrap_or("none");
+    let ml = mut_len(at).unwrap_or(0) as usize;
+    let klen = kv.u32("klen").unwrap_or(0) as usize;
+    let mut st = vec![0xAAu8; ml];
+    if ml > 0 {
+        let peer = kv.get("peer").and_then(parse_addr).unwrap_or(AddrSpec::None);
+        let kb = kernel_bytes(&peer);
+        let k = klen.min(kb.len()).min(ml);
+        st[..k].copy_from_slice(&kb[..k]);
+    }
+    (st, klen as u32)
+}
+
+fn show_sys(c: &simk::SyncCall) -> String {
+    match c.call {
+        "getsockopt" => format!("sys getsockopt fd={} level={} optname={} optlen={}", c.fd, c.level as u32, c.optname as u32, c.len_in),
+        "setsockopt" => format!("sys setsockopt fd={} level={} optname={} optval={} optlen={}", c.fd, c.level as u32, c.optname as u32, hexs(&c.val), c.len_in),
+        "pipe2" => format!("sys pipe2 flags={}", c.flags as u32),
+        name => format!("sys {name} fd={} addrlen={}", c.fd, c.len_in),
+    }
+}
+
+fn describe_sys(c: &simk::SyncCall) -> String {
+    let s = show_sys(c);
+    let mut it = s[4..].splitn(2, ' ');
+    format!("{}({})", it.next().unwrap_or(""), it.next().unwrap_or("").replace(' ', ", "))
+}
+
 fn special_err(op: &str, e: i128) -> bool {
     match op {
         "pipe" => e == 22,
@@ -2888,19 +2938,12 @@ impl EncCase {
             ok && pos == n
         };
         let peer_write = |addr_ptr: u64, len_ptr: u64, len_bytes: usize| -> bool {
-            let at = kv.get("at").unwrap_or("none");
-            let ml = mut_len(at).unwrap_or(0) as usize;
-            let klen = kv.u32("klen").unwrap_or(0) as usize;
+            let (st, klen) = peer_storage(kv);
             let mut ok = true;
-            if ml > 0 {
-                let peer = kv.get("peer").and_then(parse_addr).unwrap_or(AddrSpec::None);
-                let mut st = vec![0xAAu8; ml];
-                let kb = kernel_bytes(&peer);
-                let k = klen.min(kb.len()).min(ml);
-                st[..k].copy_from_slice(&kb[..k]);
+            if !st.is_empty() {
                 ok &= cx.poke(addr_ptr, &st);
             }
-            let lb = (klen as u32).to_ne_bytes();
+            let lb = klen.to_ne_bytes();
             ok &= cx.poke(len_ptr, &lb[..len_bytes]);
             ok
         };
@@ -3011,7 +3054,136 @@ impl EncCase {
         posts
     }
 
+    /// One op line, with the synchronous socket/pipe calls trapped for its
+    /// duration (recorded and answered from the script instead of reaching the
+    /// real kernel).
     fn run(&mut self, op: &str, toks: &[&str]) -> Vec<String> {
+        simk::sync_trap(true);
+        let mut out = self.run_inner(op, toks);
+        // calls nobody accounted for (early exits of `run_inner`)
+        let stray = simk::sync_drain();
+        if !stray.is_empty() {
+            let k = Kv::new(toks).get("k").unwrap_or("?").to_string();
+            for c in &stray {
+                out.push(show_sys(c));
+                self.fail(&format!("C13/encode/fallback-unexpected/{op}"), format!("{op} (k={k}): synchronous {} issued although the operation was not completed with an error that has a fallback", describe_sys(c)));
+            }
+        }
+        simk::sync_trap(false);
+        out
+    }
+
+    /// The outcome the line scripts for the system call of a fallback.
+    fn sync_script_for(&self, op: &str, kv: &Kv, sys: i64) -> simk::SyncScript {
+        let mut sc = simk::SyncScript::default();
+        if sys < 0 {
+            sc.errno = Some(-sys as i32);
+            return sc;
+        }
+        match op {
+            "sockname" => {
+                let (st, klen) = peer_storage(kv);
+                sc.data = st;
+                sc.len_out = klen;
+            }
+            "getsockopt" => {
+                sc.data = kv.get("ov").and_then(unhex).unwrap_or_default();
+                sc.len_out = kv.u32("slen").unwrap_or(0);
+            }
+            "pipe" => {
+                if let Some(v) = kv.get("pfds").and_then(nat_list) {
+                    if v.len() == 2 {
+                        place_fd(v[0] as i32);
+                        place_fd(v[1] as i32);
+                        sc.fds = [v[0] as i32, v[1] as i32];
+                    }
+                }
+            }
+            _ => {}
+        }
+        sc
+    }
+
+    /// The property's own judgement of the synchronous calls an operation issued
+    /// (independent of the Lean model): compared with the io_uring request the
+    /// operation published (`s`, `m`) and the descriptor it was called on.
+    #[allow(clippy::too_many_arguments)]
+    fn judge_sync(&self, op: &str, k: &str, s: &Sqe, m: &MemV, special: bool, sys: i64, calls: &[simk::SyncCall], line: &str, expect_ok: Option<&String>, kv: &Kv) {
+        let on_fd = op != "pipe";
+        let direct_target = on_fd && k == "d";
+        let own = if !on_fd { "the submission queue".to_string() } else if k == "d" { format!("direct descriptor {}", self.dfd) } else { format!("regular descriptor {}", self.rfd) };
+        if !special {
+            for c in calls {
+                self.fail(&format!("C13/encode/fallback-unexpected/{op}"), format!("{op} on {own}: synchronous {} issued although the completion carried no error that has a fallback", describe_sys(c)));
+            }
+            return;
+        }
+        for c in calls {
+            if direct_target {
+                self.fail(&format!("C13/encode/fallback-on-direct/{op}"), format!("{op} on {own}: the fallback issued {} — a system call takes a regular descriptor, so it operates on whatever regular descriptor has number {} instead of the direct descriptor", describe_sys(c), c.fd));
+                continue;
+            }
+            if on_fd && c.fd != self.rfd {
+                self.fail(&format!("C13/encode/fallback-wrong-fd/{op}"), format!("{op} on {own}: the fallback issued {} on descriptor {}", describe_sys(c), c.fd));
+            }
+            let want_call = match op {
+                "sockname" => if s.file_index == 0 { "getsockname" } else { "getpeername" },
+                "getsockopt" => "getsockopt",
+                "setsockopt" => "setsockopt",
+                _ => "pipe2",
+            };
+            if c.call != want_call {
+                self.fail(&format!("C13/encode/fallback-call/{op}"), format!("{op} on {own}: the request stands for {want_call}, the fallback issued {}", describe_sys(c)));
+                continue;
+            }
+            let args_ok = match op {
+                "sockname" => Some(c.len_in) == m.alen && Some(c.len_in) == kv.get("at").and_then(mut_len),
+                "getsockopt" => c.level as u32 as u64 == s.addr & 0xffff_ffff && c.optname as u32 as u64 == s.addr >> 32 && c.len_in == s.file_index,
+                "setsockopt" => c.level as u32 as u64 == s.addr & 0xffff_ffff && c.optname as u32 as u64 == s.addr >> 32 && c.len_in == s.file_index && Some(&c.val) == m.optval.as_ref(),
+                // regular descriptors are always created close-on-exec; everything
+                // else as in the request
+                _ => c.flags as u32 & !O_CLOEXEC == s.op_flags & !O_CLOEXEC && c.flags as u32 & O_CLOEXEC != 0,
+            };
+            if !args_ok {
+                let carried = match op {
+                    "sockname" => format!("addrlen={}", m.alen.map_or("?".to_string(), |l| l.to_string())),
+                    "getsockopt" => format!("level={} optname={} optlen={}", s.addr & 0xffff_ffff, s.addr >> 32, s.file_index),
+                    "setsockopt" => format!("level={} optname={} optval={} optlen={}", s.addr & 0xffff_ffff, s.addr >> 32, m.optval.as_ref().map_or("?".to_string(), |v| hexs(v)), s.file_index),
+                    _ => format!("flags={} (regular descriptors are additionally close-on-exec)", s.op_flags),
+                };
+                self.fail(&format!("C13/encode/fallback-args/{op}"), format!("{op} on {own}: the fallback issued {}, the io_uring request carried {carried}", describe_sys(c)));
+            }
+        }
+        if direct_target {
+            // the error check of `run_inner` requires the kernel's error unchanged
+            return;
+        }
+        if calls.is_empty() {
+            self.fail(&format!("C13/encode/fallback-missing/{op}"), format!("{op} on {own}: the kernel does not support the io_uring form (errno {}), the system call was not issued and the caller got `{line}`", kv.int("res").map_or(0, |r| -r)));
+            return;
+        }
+        if calls.len() > 1 {
+            self.fail(&format!("C13/encode/fallback-call/{op}"), format!("{op} on {own}: {} system calls issued for one operation", calls.len()));
+        }
+        // the result: the system call's error, or its out-parameters decoded as
+        // the io_uring completion with the same bytes would be
+        let expect: Option<String> = if sys < 0 {
+            Some(format!("err {}", -sys))
+        } else {
+            match op {
+                "setsockopt" => Some("ok".into()),
+                "pipe" => kv.get("pfds").map(|p| format!("ok fds={p} kind=f")),
+                _ => expect_ok.cloned(),
+            }
+        };
+        if let Some(e) = expect {
+            if line != e {
+                self.fail(&format!("C13/encode/fallback-result/{op}"), format!("{op} on {own}: {} returned {}; through io_uring the same outcome is decoded as `{e}`, the operation returned `{line}`", describe_sys(&calls[0]), if sys < 0 { format!("errno {}", -sys) } else { "0".to_string() }));
+            }
+        }
+    }
+
+    fn run_inner(&mut self, op: &str, toks: &[&str]) -> Vec<String> {
         let bad = || vec!["bad-op".to_string()];
         if !self.ok {
             return bad();
@@ -3021,8 +3193,26 @@ impl EncCase {
         if res <= -2147483648 || res >= 2147483648 || late > 1 || (late == 1 && (op == "close" || op == "dropfd")) {
             return bad();
         }
-        if res < 0 && !matches!(op, "close" | "dropfd") && (res == -4 || res == -125 || special_err(op, -res)) {
+        if res < 0 && !matches!(op, "close" | "dropfd") && (res == -4 || res == -125) {
             return bad();
+        }
+        // A completion error with a fallback path: the line scripts the system
+        // call (`sys=0|-errno`, `slen=` = option length getsockopt reports).
+        // Without `sys=` (older syntax) such lines stay rejected.
+        let special = res < 0 && special_err(op, -res);
+        if (kv.get("sys").is_some() || kv.get("slen").is_some()) && !special {
+            return bad();
+        }
+        let mut sys: i64 = 0;
+        if special {
+            let Some(v) = kv.int("sys") else { return bad() };
+            if v > 0 || v < -4095 {
+                return bad();
+            }
+            sys = v as i64;
+            if (op == "getsockopt") != kv.get("slen").is_some() || (op == "getsockopt" && kv.u32("slen").is_none()) {
+                return bad();
+            }
         }
         let res = res as i64;
         let Some(mut b) = self.build(op, &kv, res) else { return bad() };
@@ -3172,12 +3362,43 @@ impl EncCase {
         }
         let posts = if op == "close" { Vec::new() } else { self.complete(op, &kv, &s, &mem, &ctx, res) };
         self.rpoll(posts);
+        if special {
+            simk::sync_script(Some(self.sync_script_for(op, &kv, sys)));
+        }
         let line = match util::catch(|| b.obj.poll(&mut cx)) {
             Ok(Some(l)) => l,
             Ok(None) => "pending".into(),
             Err(_) => "panic".into(),
         };
-        if res < 0 && op != "close" {
+        let k = kv.get("k").unwrap_or("?");
+        let calls = simk::sync_drain();
+        simk::sync_script(None);
+        for c in &calls {
+            out.push(show_sys(c));
+        }
+        if special {
+            if calls.is_empty() {
+                out.push("sys none".into());
+            }
+            let target = if op == "pipe" { "queue" } else if k == "d" { "direct" } else { "regular" };
+            self.feats.push(format!("fallback:{op}:{target}:{}", if sys < 0 { "sys-error" } else { "sys-ok" }));
+            if let Some(o) = kv.get("opt") {
+                self.feats.push(format!("fallback-opt:{op}:{o}:{target}"));
+            }
+            if op == "pipe" && sys == 0 && !calls.iter().any(|c| c.call == "pipe2") {
+                // descriptors placed for a pipe2 that never came
+                if let Some(v) = kv.get("pfds").and_then(nat_list) {
+                    for fd in v {
+                        unsafe { libc::close(fd as i32) };
+                    }
+                }
+            }
+        }
+        self.judge_sync(op, k, &s, &mem, special, sys, &calls, &line, b.expect_ok.as_ref(), &kv);
+        // with a fallback on a regular descriptor (or a pipe) the result is the
+        // system call's, judged above
+        let via_syscall = special && (op == "pipe" || k == "f");
+        if res < 0 && op != "close" && !via_syscall {
             self.feats.push("error-result".into());
             let expect = if res == -22 && !matches!(op, "todirect" | "tofd" | "sockname" | "getsockopt" | "setsockopt" | "pipe") { "err unsupported".to_string() } else { format!("err {}", -res) };
             if line != expect {
@@ -3389,6 +3610,15 @@ impl EncCase {
             _ => {}
         }
         let err = rng.chance(1, 7);
+        // The errors with a synchronous fallback are a class of their own (1 in 3
+        // of the lines of socket names and pipes, 1 in 2 of socket options — 19 + 13
+        // option types on two kinds of descriptor), on both kinds of descriptor:
+        // the line then also scripts the system call.
+        let fb = match op {
+            "sockname" | "pipe" => rng.chance(1, 3),
+            "getsockopt" | "setsockopt" => rng.chance(1, 2),
+            _ => false,
+        };
         let late = if !matches!(op, "close" | "dropfd") && rng.chance(1, 5) { 1 } else { 0 };
         let pick_err = |rng: &mut Rng, op: &str| -> i64 {
             loop {
@@ -3562,6 +3792,7 @@ impl EncCase {
                 let (_, _, ty, _, _) = opt_info(o).unwrap();
                 let sz = opt_size(ty) as usize;
                 res = if rng.chance(1, 20) { rng.below(12) as i64 } else { sz as i64 };
+                let slen = res;
                 let word = |rng: &mut Rng| -> u32 {
                     match rng.below(6) {
                         0 => 0,
@@ -3575,7 +3806,7 @@ impl EncCase {
                 if sz == 8 {
                     b.extend_from_slice(&word(rng).to_ne_bytes());
                 }
-                format!("opt={o} ov={}", hexs(&b))
+                if fb { format!("opt={o} ov={} slen={slen}", hexs(&b)) } else { format!("opt={o} ov={}", hexs(&b)) }
             }
             "setsockopt" => {
                 let o = *rng.pick(&SET_OPTS);
@@ -3615,7 +3846,8 @@ impl EncCase {
             }
             "pipe" => {
                 let ck = *rng.pick(&["none", "f", "d"]);
-                let kind = if ck == "d" { "d" } else { "f" };
+                // pipe2(2) of the fallback returns regular descriptors
+                let kind = if ck == "d" && !fb { "d" } else { "f" };
                 let a = g_newfd(rng, self, kind);
                 let mut b2 = g_newfd(rng, self, kind);
                 while b2 == a {
@@ -3625,17 +3857,32 @@ impl EncCase {
             }
             _ => format!("addr={} len={} adv={}", g_u64(rng), g_u32(rng), rng.pick(&madvise_table()).0),
         };
-        if err {
+        let mut tail = String::new();
+        if fb {
+            res = match op {
+                "pipe" => -22,
+                "sockname" => -95,
+                _ => *rng.pick(&[-95i64, -38]),
+            };
+            // the system call succeeds, or fails with an errno of its own (the
+            // special ones included: they are not special a second time)
+            let sys = if rng.chance(3, 4) { 0 } else { -*rng.pick(&[9i64, 14, 22, 24, 38, 88, 92, 95, 107]) };
+            tail = format!(" sys={sys}");
+        } else if err {
             res = pick_err(rng, op);
         } else if rng.chance(1, 40) && matches!(op, "fsync" | "mkdir" | "bind" | "listen" | "shutdown" | "statx" | "waitid" | "todirect" | "sigrecv" | "pipe" | "madvise") {
             // a result the kernel does not produce for this call (debug assertions)
             res = rng.range(1, 3) as i64;
         }
-        format!("encode {op} k={k}{}{body} res={res} late={late}", if body.is_empty() { "" } else { " " })
+        format!("encode {op} k={k}{}{body} res={res} late={late}{tail}", if body.is_empty() { "" } else { " " })
     }
 
     fn gen_malformed(&mut self, rng: &mut Rng) -> String {
-        match rng.below(8) {
+        match rng.below(12) {
+            8 => "encode sockname k=f which=local at=v4 peer=v4:7f000001:80 klen=16 res=-95 late=0".into(),
+            9 => "encode setsockopt k=f opt=nodelay val=1 res=-1 late=0 sys=0".into(),
+            10 => "encode getsockopt k=d opt=type ov=01000000 res=-38 late=0 sys=0".into(),
+            11 => "encode pipe k=f ck=d pfl=none pfds=5,6 res=-22 late=0 sys=0".into(),
             0 => "encode frobnicate k=f res=0 late=0".into(),
             1 => "encode read k=f cap=10 len=20 off=none res=0 late=0".into(),
             2 => "encode read k=x cap=10 len=2 off=none res=0 late=0".into(),
@@ -3711,7 +3958,7 @@ impl Comp for EncodeComp {
         "encode"
     }
     fn rule(&self) -> String {
-        "each case = a ring with a regular descriptor (number 600..999), a direct descriptor (index 0..2^31-2, obtained through to_direct_descriptor) and a splice target, then 8 op lines drawn uniformly from 43 operations (read/readp/mread/readv/write/writev/splice/close/dropfd/open/mkdir/rename/unlink/fsync/statx/fadvise/fallocate/ftruncate/socket/bind/listen/connect/sockname/recv/recvp/mrecv/recvv/recvfrom/recvfromv/send/sendto/sendmsg/accept/maccept/getsockopt/setsockopt/shutdown/waitid/sigrecv/todirect/tofd/pipe/madvise): regular x direct descriptor, offsets none/0/small/>2^32/2^64-2/2^64-1/random, lengths 0/1/64/random, every non-empty subset of each BitOr flag type, every public constant of the single-valued flag types, 1..8 vectored buffers with random capacity/initial length, all five address types (IPv4, IPv6, either-family, Unix path/abstract/unnamed, none), 19 socket options, results = success with data or an errno (1 in 7) or a value the call never returns (1 in 40), late=1 (1 in 5) calls every builder method again after the first poll and forces a re-issue with EINTR; plus a malformed stream (1 in 30) and real-kernel differential lines (1 in 250: the same seeded fixture through a10 on a real ring and through libc); every well-formed case is non-trivial; distinct = distinct op scripts".into()
+        "each case = a ring with a regular descriptor (number 600..999), a direct descriptor (index 0..2^31-2, obtained through to_direct_descriptor) and a splice target, then 8 op lines drawn uniformly from 43 operations (read/readp/mread/readv/write/writev/splice/close/dropfd/open/mkdir/rename/unlink/fsync/statx/fadvise/fallocate/ftruncate/socket/bind/listen/connect/sockname/recv/recvp/mrecv/recvv/recvfrom/recvfromv/send/sendto/sendmsg/accept/maccept/getsockopt/setsockopt/shutdown/waitid/sigrecv/todirect/tofd/pipe/madvise): regular x direct descriptor, offsets none/0/small/>2^32/2^64-2/2^64-1/random, lengths 0/1/64/random, every non-empty subset of each BitOr flag type, every public constant of the single-valued flag types, 1..8 vectored buffers with random capacity/initial length, all five address types (IPv4, IPv6, either-family, Unix path/abstract/unnamed, none), 19 socket options, results = success with data or an errno (1 in 7) or a value the call never returns (1 in 40); for the four operations with a synchronous fallback (sockname, pipe: 1 line in 3; getsockopt, setsockopt: 1 in 2) the line completes with the error that triggers it (EOPNOTSUPP / ENOSYS|EOPNOTSUPP / EINVAL), on regular and direct descriptors alike, and scripts the trapped system call (success with the same out-parameters as a completion, 1 in 4 an errno of its own); late=1 (1 in 5) calls every builder method again after the first poll and forces a re-issue with EINTR; plus a malformed stream (1 in 30) and real-kernel differential lines (1 in 250: the same seeded fixture through a10 on a real ring and through libc); every well-formed case is non-trivial; distinct = distinct op scripts".into()
     }
     fn gen_header(&mut self, rng: &mut Rng, id: u64, _tier: &str) -> String {
         let rfd = rng.range(600, 999);
